@@ -37,6 +37,9 @@ def _impl(sig, peaks, troughs, dt=None):
                 except Exception: pass
                 buf[:] = arr; arr = buf
             r, d = find_zerox(arr, mk(peaks), mk(troughs))
+        for nm, a in (('rises', r), ('decays', d)):      # sample indices: integer arrays, also when empty (they are used to index the recording)
+            if not (isinstance(a, np.ndarray) and a.dtype.kind in 'iu'):
+                return ['err', 'NotAnIntegerIndexArray:' + nm]
         return ['ok', [[str(int(x)) for x in r], [str(int(x)) for x in d]]]
     except Exception as e:
         return ['err', type(e).__name__]
